@@ -59,7 +59,8 @@ void generate(sim::Rng &r, uint64_t seed, const std::string &tier, sim::Plan &p)
       a = far ? r.pick((const long[]){4, 5, 10}) : r.range(0, 10);   // shape
       c1 = r.range(0, 59); c2 = r.range(0, 23); c3 = r.range(1, 28);
     }
-    op.a = {kind, sod, a, tz, c1, c2, c3};
+    // 8th: a repeating alarm whose callback disables its own alarm on the k-th firing (0: never)
+    op.a = {kind, sod, a, tz, c1, c2, c3, (kind != 1 && r.chance(200)) ? r.range(1, 3) : 0};
     p.ops.push_back(op);
   }
   if (far || r.chance(300)) {
@@ -188,7 +189,8 @@ struct AState {
   int64_t last_fired_instant = -1;
   long callbacks = 0;
   int64_t kept_target = -1;      // one-shot: the instant served last; enable() searches from max(now, that) until disable() forgets it
-  long reenable_left = 0;        // one-shot: how many more times the callback enables the alarm again
+  long reenable_left = 0;
+  long disable_in_cb_at = 0;     // repeating alarm: its callback calls disable() on the alarm itself at this firing        // one-shot: how many more times the callback enables the alarm again
 };
 
 struct World {
@@ -259,6 +261,12 @@ void on_alarm(int i) {
     } else {
       model_arm(i, std::max<int64_t>(now_local_s, s.expect_local));
     }
+  }
+  if (s.spec.kind != 1 && s.disable_in_cb_at > 0 && s.callbacks == s.disable_in_cb_at && s.enabled) {
+    // the callback switches its own alarm off: from here on it must stay silent until somebody enables it again
+    s.alarm->disable(); s.enabled = false; s.expect_local = -1; s.uncertain = false; s.kept_target = -1; s.last_fired_instant = -1;
+    if (s.alarm->isEnabled()) sim::violation("C20/still-enabled-after-disable", sim::fmt("alarm %d reports isEnabled() after disable() was called from inside its own callback", i));
+    sim::probe("disabled_from_own_callback");
   }
   if (W.total_cb >= W.max_cb && !W.finished) { W.finished = true; W.loop->exitLoop(); }
 }
@@ -359,6 +367,7 @@ void execute(const sim::Plan &plan) {
     long tz = std::max(-720L, std::min(840L, op.arg(3)));
     s.spec.tz_s = tz * 60;
     if (s.spec.kind == 1) s.reenable_left = std::max(0L, std::min(3L, op.arg(4)));
+    else s.disable_in_cb_at = std::max(0L, std::min(5L, op.arg(7)));
     auto cbf = [n] { on_alarm(n); };
     if (s.spec.kind == 0) { auto *al = new WeeklyAlarm(W.loop); std::string m; s.spec.arg &= 127; if (!s.spec.arg) s.spec.arg = 1; for (int b = 0; b < 7; ++b) m.push_back(((s.spec.arg >> b) & 1) ? '1' : '0'); s.init_ok = al->initialize((int)s.spec.sod, m); s.alarm = al; }
     else if (s.spec.kind == 1) { auto *al = new OneshotAlarm(W.loop); s.init_ok = al->initialize((int)s.spec.sod); s.alarm = al; }
